@@ -51,8 +51,8 @@ META = {
                  "the legacy sender race) + differential run of one conversation over four real carriers judged by the extracted checker",
     "design_ref": "DESIGN.md section 6 (C15)",
 }
-GEN = []
-TARGETS = ["Model/Carrier", "Spec/C15", "Proofs/Carrier", "Proofs/CarrierDecode", "Props/C15", "Drv/C15"]
+GEN = ["EnvelopeKindGen.v"]
+TARGETS = ["Model/Carrier", "Spec/C15", "Proofs/Carrier", "Proofs/CarrierDecode", "Gen/EnvelopeKindGen", "Proofs/EnvelopeKind", "Props/C02", "Props/C15", "Drv/C15"]
 TRUSTED = [
     "Coq 8.16.1 kernel (coqc); coqchk re-check in the thorough tier; vm_compute only in the non-vacuity Example",
     "axioms: none (every C15 theorem prints 'Closed under the global context')",
